@@ -2732,6 +2732,57 @@ impl DhtNetworkManager {
     }
 }
 
+#[cfg(feature = "verif-hooks")]
+impl DhtNetworkManager {
+    /// Number of entries in the DHT RPC pending table.
+    pub fn verif_active_operations_len(&self) -> usize {
+        self.active_operations.lock().map(|m| m.len()).unwrap_or(0)
+    }
+
+    /// `(node id bytes, address)` of every routing-table entry.
+    pub async fn verif_routing_snapshot(&self) -> Vec<([u8; 32], String)> {
+        self.dht.read().await.verif_routing_snapshot().await
+    }
+
+    /// `(key, value)` of every record in the local store.
+    pub async fn verif_store_dump(&self) -> Vec<([u8; 32], Vec<u8>)> {
+        self.dht.read().await.verif_store_dump().await
+    }
+
+    /// `(peer id, dht key, is_connected, addresses)` of every tracked DHT peer.
+    pub async fn verif_dht_peers(&self) -> Vec<(String, [u8; 32], bool, Vec<String>)> {
+        self.dht_peers
+            .read()
+            .await
+            .values()
+            .map(|p| {
+                (
+                    p.peer_id.clone(),
+                    p.dht_key,
+                    p.is_connected,
+                    p.addresses.iter().map(|a| a.to_string()).collect(),
+                )
+            })
+            .collect()
+    }
+
+    /// True when both background task handles have been consumed by `stop()`.
+    pub async fn verif_task_handles_done(&self) -> bool {
+        self.maintenance_handle.read().await.is_none()
+            && self.event_handler_handle.read().await.is_none()
+    }
+
+    /// Free permits of the inbound-handler semaphore.
+    pub fn verif_handler_permits(&self) -> usize {
+        self.message_handler_semaphore.available_permits()
+    }
+
+    /// The node's own position in the key space.
+    pub fn verif_local_dht_key(&self) -> [u8; 32] {
+        *self.local_dht_key.as_bytes()
+    }
+}
+
 impl Default for DhtNetworkConfig {
     fn default() -> Self {
         Self {
